@@ -109,5 +109,5 @@ def gen(rng, tier):
         lines += ["new %d %d" % (depth, flags)]
         b = len(lines)
         lines += ["p " + hexs(x) for x in second]
-        yield {"lines": lines, "keep": 1, "twin": (a, b, len(second))}
+        yield {"lines": lines, "keep": 1, "noshrink": True, "twin": (a, b, len(second))}
     yield {"lines": ["new 0 0", "new -5 0", "new 1 0", "p 5b5d", "p 5b5b5d5d"]}
